@@ -40,8 +40,13 @@ def run_c19(it):
     shape = it["shape"]
     D = np().array(it["D"], dtype=float).reshape(shape)
     flat = [int(v) for v in it["D"]]
+    D0, flat0 = D, flat
     for c in it["calls"]:
         kind, method = c["kind"], c["method"]
+        # squash(keep_sign=True) on signed data: the array shifted down by c["shift"]
+        shift = int(c.get("shift") or 0)
+        D = D0 - shift
+        flat = [v - shift for v in flat0]
         kw = {"method": method}
         for name in ("r", "a", "x0"):
             if c.get(name) is not None:
@@ -54,7 +59,8 @@ def run_c19(it):
             kw["keep_sign"] = True
         route = "%s[%s%s%s%s%s%s]" % (kind, method, ",r" if "r" in kw else "", ",a" if "a" in kw else "",
                                       ",x0" if "x0" in kw else "", ",base" if "base" in kw else "",
-                                      ",cq" if "cover_quantile" in kw else "")
+                                      (",cq" if "cover_quantile" in kw else "") + (",keep_sign" if c.get("keep_sign") else "")
+                                      + (",shift%d" % shift if shift else ""))
         rec = {"route": route, "kind": kind, "method": method, "D": flat,
                "r": c.get("r") or [0, 0], "a": c.get("a") or [0, 0], "x0": c.get("x0") or [0, 0],
                "raised": False, "finite": True, "in01": True, "zeromax": True, "ranks": [0] * len(flat),
@@ -74,6 +80,10 @@ def run_c19(it):
         if rec["finite"]:
             eps = 1e-12
             rec["in01"] = bool(np().all(S >= -eps) and np().all(S <= 1 + eps))
+            if shift:
+                # signed data with keep_sign: range [-1, 1] and the sign of the argument is kept
+                Xf = np().asarray(D, dtype=float).reshape(-1)
+                rec["in01"] = bool(np().all(np().abs(S) <= 1 + eps) and np().all(S * np().sign(Xf) >= -eps))
             rec["ranks"] = dense_ranks([float(v) for v in S])
             if kind == "d2s" and any(v == 0 for v in flat):
                 mx = float(np().max(S))
